@@ -140,3 +140,41 @@ for e in all_entries():
         shards.append(sh)
     OBLIGATIONS.append(entry_obl("history", history, e, extra={"route": I(0, 6), "rot": I(0, 2), "mi": I(0, len(MASKS) - 1)}, extra_thorough={"mi": I(0, len(MASKS) + 255)},
                                  narrow=True, budget=120, thorough_budget=400, extra_shards=shards, tiers=("quick", "thorough") if quick else ("thorough",)))
+
+
+# ---- open types: re-encoding the decoded (unresolved) value reproduces the DER/CER encoding of the typed value ---------------
+def ot_fixpoint(container, tagging, vector, cer, which, n, k, f0, nelem):
+    """e = enc(value holding a typed inner value); w = decode(e) without open-type resolution; enc(w) == e (and the same with resolution)."""
+    from props import C18
+
+    spec = C18._schema(container, tagging, vector)
+    enc, dec = (cer_encoder, cer_decoder) if cer else (der_encoder, der_decoder)
+    if container == 1 and tagging == 0:
+        raise Skip()  # an untagged open type as a SET member has no determinate tag: not legal ASN.1 (X.680: SET members need distinct tags)
+    it = C18.INNER[which]
+    iav = C18._inner_av(which, n, 65, 0, f0, k)
+    v = spec.clone()
+    v["id"] = which
+    if vector:
+        for _i in range(nelem):
+            v["blob"].append(build(it, iav))
+        if nelem == 0:
+            v["blob"].clear()
+    else:
+        v["blob"] = build(it, iav)
+    e = enc.encode(v)
+    w, rest = dec.decode(substrate(e), asn1Spec=spec)
+    if len(rest) != 0:
+        return "remainder left"
+    if enc.encode(w) != e:
+        return "re-encoding the decoded open-type value (opaque field) does not reproduce the encoding"
+    w2, rest = dec.decode(substrate(e), asn1Spec=spec, decodeOpenTypes=True)
+    if enc.encode(w2) != e:
+        return "re-encoding the decoded open-type value (resolved field) does not reproduce the encoding"
+    return None
+
+
+OBLIGATIONS.append(Obl("ot_fixpoint", ot_fixpoint,
+                       {"container": I(0, 1), "tagging": I(0, 2), "vector": I(0, 2), "cer": B, "which": I(1, 4), "n": I(127, 128), "k": I(0, 1), "f0": B, "nelem": I(0, 2)},
+                       shards=[{"container": C(c_), "tagging": C(t_), "vector": C(v_), "cer": C(x_)} for c_ in (0, 1) for t_ in (0, 1, 2) for v_ in (0, 1, 2) for x_ in (False, True)],
+                       budget=90, thorough={"n": I(-300, 300)}, doc="DER/CER fixpoint through decode for values holding typed open-type inner values"))
